@@ -38,7 +38,7 @@ THIN = {"thin": True, "names": ["sig"], "nsecs": 1, "narr": 1, "nsrc": 1}
 
 
 def BOUNDS(tier):
-    return {"rich": {"depth": 1, "auto": ["on", "off"]}, "mini": {"depth": 2 if tier == "quick" else 3, "auto": ["on", "off", "toggled"]},
+    return {"rich": {"depth": 1, "auto": ["on", "off"]}, "mini": {"depth": "2 thin (same-entity follow-up)" if tier == "quick" else "2 full alphabet", "auto": ["on", "off", "toggled"]},
             "roundtrip_values": "3 per day 1970-2100 + every second of %d days" % (2 if tier == "quick" else 10)}
 
 
@@ -48,8 +48,11 @@ def cases(tier):
         for h in explorer.enumerate_histories("rich", 1, {"delete_modes": False}):
             if h[-1][0] != "reopen":
                 out.append({"k": "hist", "seed": "rich", "ops": h, "auto": auto})
-    d = 2 if tier == "quick" else 3
-    hs = explorer.enumerate_histories("mini", d, THIN, follow=explorer.same_entity_or_reopen if tier == "quick" else None)
+    if tier == "quick":
+        hs = explorer.enumerate_histories("mini", 2, THIN, follow=explorer.same_entity_or_reopen)
+    else:
+        # depth 2 over the full alphabet, depth 3 over the thin alphabet (after a 'set' only the same entity / REOPEN)
+        hs = explorer.enumerate_histories("mini", 2, {})
     for h in hs:
         if len(h) < 2:
             continue
